@@ -476,12 +476,32 @@ setitem = [
     Contract(S + "__setitem__", PROPERTY, params={"self": setitem_self, "key": ("const", "not_a_parameter"), "val": q_val(SPEED, "given_speed_unit")},
              cases=[{"_name": "unknown-name"}], ensures={"must-raise": "False"}),
 ]
+
+
+def setitem_self_existing(ex, path, name):
+    """the column is there already, stored in whatever unit an earlier assignment gave it"""
+    valid = PyDict([("P", A.U_DAY), ("e", A.U_ONE), ("K", A.unit(SPEED, 1000, "km/s")), ("ln_prior", A.U_ONE)])
+    old_u = A.sym_unit("stored_speed_unit", SPEED)
+    path.assume(*old_u.sym_facts)
+    tbl = T.samples_table([("K", old_u)], z3.Int("n_rows"), _meta(), prefix="stored")
+    return Obj("JokerSamples", {"tbl": tbl, "_valid_units": valid, "_cache": PyDict(), "__qualclass__": "thejoker.samples.JokerSamples"}, ident="self")
+
+
+setitem.append(Contract(S + "__setitem__", PROPERTY, params={"self": setitem_self_existing, "key": ("const", "K"), "val": q_val(SPEED, "given_speed_unit")},
+                        cases=[{"_name": "valid-name,column-already-there-in-another-unit"}],
+                        ensures={"the-column-now-is-the-assigned-quantity-values-and-unit": "self.tbl['K'].unit is val.unit and self.tbl['K'].value is val.value and "
+                                                                                          "list(self.tbl.colnames) == ['K']"}))
 for _c in setitem:
     _c.returns_self = True
 CONTRACTS += setitem
 
 
+from . import unitmaps as _UM   # noqa: E402
+CONTRACTS += _UM.contracts(PROPERTY)
+
+
 def EXTRA():
     # the read-only operations do not update their table in place (asking twice gives the same answer)
     from jvc import effects
-    return effects.check_no_inplace_on_borrowed([S + "pack", S + "get_time_with_phase", S + "median_period", S + "_apply", S + "__getitem__", S + "copy"], PROPERTY)
+    return effects.check_no_inplace_on_borrowed([S + "pack", S + "get_time_with_phase", S + "median_period", S + "_apply", S + "__getitem__", S + "copy",
+                                                S + "__init__", S + "unpack", S + "wrap_K", S + "get_t0"], PROPERTY)
